@@ -653,4 +653,466 @@ Proof.
 Qed.
 
 End Update.
+(* ------------------------------------------------------------------ *)
+(* the invariant of the loop state and its preservation by an event    *)
+
+Definition sp_slot_ok (st : node -> N) (sl : slot) : Prop :=
+  slok sl /\ sp_full sl /\ forall k, oQeq (sabs sl k) (sp_spec st sl k).
+Definition in_slot_ok (st : node -> N) (sl : slot) : Prop :=
+  slok sl /\ in_full sl /\ forall k, oQeq (sabs sl k) (in_spec st sl k).
+
+(* simple_inv: every potential_transitions[tr] is exactly the set of enabled actors *)
+Record SInv (s : sst) : Prop := {
+  si_sp : Forall (sp_slot_ok (s_stat s)) (s_sp s);
+  si_in : Forall (in_slot_ok (s_stat s)) (s_in s)
+}.
+
+Lemma rmap_Forall2 : forall (f : slot -> result slot) (P : slot -> Prop) (R : slot -> slot -> Prop) l,
+  (forall x, P x -> exists y, f x = Ok y /\ R x y) -> Forall P l ->
+  exists l', rmap f l = Ok l' /\ Forall2 R l l'.
+Proof.
+  intros f P R l Hf. induction l as [|x l IH]; intro HP.
+  - exists []. split; [reflexivity|constructor].
+  - inversion HP as [|x' l' Hx Hl]; subst x' l'.
+    destruct (Hf x Hx) as [y [Ey Ry]]. destruct (IH Hl) as [l' [El Rl]].
+    exists (y :: l'). cbn [rmap]. rewrite Ey, rbind_ok, El, rbind_ok. split; [reflexivity|].
+    constructor; assumption.
+Qed.
+
+Lemma Forall2_Forall_r : forall (R : slot -> slot -> Prop) (P : slot -> Prop) l l',
+  Forall2 R l l' -> (forall x y, R x y -> P y) -> Forall P l'.
+Proof.
+  intros R P l l' H HP. induction H; constructor; [eapply HP; eassumption|assumption].
+Qed.
+
+Lemma Forall2_frames : forall l l', Forall2 same_frame l l' -> map sl_tr l' = map sl_tr l.
+Proof.
+  intros l l' H. induction H as [|x y l l' [Hxy _] _ IH]; [reflexivity|].
+  cbn [map]. rewrite Hxy, IH. reflexivity.
+Qed.
+
+Definition evolved (P : slot -> Prop) (sl sl' : slot) : Prop := same_frame sl sl' /\ P sl'.
+
+(* the bookkeeping part of an event on node m with new status [new] *)
+Lemma update_all_ok : forall s m new,
+  SInv s -> In m (gnodes g) ->
+  let st' := fupdN (s_stat s) m new in
+  exists sp' in',
+    rmap (upd_spont m (s_stat s m) new) (s_sp s) = Ok sp' /\
+    rmap (upd_induced g st' m (s_stat s m) new) (s_in s) = Ok in' /\
+    Forall (sp_slot_ok st') sp' /\ Forall (in_slot_ok st') in' /\
+    map sl_tr sp' = map sl_tr (s_sp s) /\ map sl_tr in' = map sl_tr (s_in s).
+Proof.
+  intros s m new HI Hm st'.
+  destruct (rmap_Forall2 (upd_spont m (s_stat s m) new) (sp_slot_ok (s_stat s))
+              (evolved (sp_slot_ok st')) (s_sp s)) as [sp' [Esp Hsp]].
+  { intros sl [Hok [Hfull Hag]].
+    destruct (upd_spont_ok (s_stat s) m new Hm sl Hok Hfull Hag) as [sl' [E [Hok' [Hf' Ha']]]].
+    exists sl'. split; [exact E|]. split; [exact Hf'|]. split; [exact Hok'|].
+    split; [apply (sp_full_frame _ _ Hf' Hfull)|].
+    intro k. rewrite (sp_spec_frame _ _ _ k Hf'). apply Ha'. }
+  { apply (si_sp s HI). }
+  destruct (rmap_Forall2 (upd_induced g st' m (s_stat s m) new) (in_slot_ok (s_stat s))
+              (evolved (in_slot_ok st')) (s_in s)) as [in' [Ein Hin]].
+  { intros sl [Hok [Hfull Hag]].
+    destruct (upd_induced_ok (s_stat s) m new Hm sl Hok Hfull Hag) as [sl' [E [Hok' [Hf' Ha']]]].
+    exists sl'. split; [exact E|]. split; [exact Hf'|]. split; [exact Hok'|].
+    split; [apply (in_full_frame _ _ Hf' Hfull)|].
+    intro k. rewrite (in_spec_frame _ _ _ k Hf'). apply Ha'. }
+  { apply (si_in s HI). }
+  exists sp', in'. split; [exact Esp|]. split; [exact Ein|].
+  split; [eapply Forall2_Forall_r; [exact Hsp|intros x y [_ H]; exact H]|].
+  split; [eapply Forall2_Forall_r; [exact Hin|intros x y [_ H]; exact H]|].
+  split; apply Forall2_frames.
+  - clear -Hsp. induction Hsp as [|x y l l' [H _] _ IH]; constructor; assumption.
+  - clear -Hin. induction Hin as [|x y l l' [H _] _ IH]; constructor; assumption.
+Qed.
+
+(* a spontaneous event of node u: tr is enabled for u, i.e. tr_from tr = [status u] *)
+Lemma apply_spont_ok : forall rstat full t tr u s,
+  SInv s -> In u (gnodes g) -> tr_from tr = [s_stat s u] ->
+  let new := hd_status (tr_to tr) in
+  exists s', apply_event g rstat full t true tr [u] s = Ok s' /\ SInv s' /\
+    s_stat s' = fupdN (s_stat s) u new /\
+    s_rows s' = (t, next_counts rstat (hd_counts (s_rows s)) (s_stat s u) new) :: s_rows s /\
+    s_elog s' = (if full then (t, u, new) :: s_elog s else s_elog s) /\
+    s_tlog s' = s_tlog s /\
+    map sl_tr (s_sp s') = map sl_tr (s_sp s) /\ map sl_tr (s_in s') = map sl_tr (s_in s).
+Proof.
+  intros rstat full t tr u s HI Hu Hfrom new.
+  unfold apply_event. cbn [keynode rbind]. rewrite Hfrom. cbn [hd_status].
+  destruct (update_all_ok s u new HI Hu) as [sp' [in' [Esp [Ein [Hsp [Hin [Fsp Fin]]]]]]].
+  fold new. rewrite Esp, rbind_ok, Ein, rbind_ok.
+  eexists. split; [reflexivity|]. split; [constructor; cbn [s_stat s_sp s_in]; assumption|].
+  cbn [s_stat s_rows s_elog s_tlog s_sp s_in]. repeat split; assumption.
+Qed.
+
+(* an induced event along u -> v: tr is enabled for the ordered pair (u, v) *)
+Lemma apply_induced_ok : forall rstat full t tr u v s,
+  SInv s -> In v (gnodes g) -> tr_from tr = [s_stat s u; s_stat s v] ->
+  let new := snd_status (tr_to tr) in
+  exists s', apply_event g rstat full t false tr [u; v] s = Ok s' /\ SInv s' /\
+    s_stat s' = fupdN (s_stat s) v new /\
+    s_rows s' = (t, next_counts rstat (hd_counts (s_rows s)) (s_stat s v) new) :: s_rows s /\
+    s_elog s' = (if full then (t, v, new) :: s_elog s else s_elog s) /\
+    s_tlog s' = (if full then (t, Some u, v) :: s_tlog s else s_tlog s) /\
+    map sl_tr (s_sp s') = map sl_tr (s_sp s) /\ map sl_tr (s_in s') = map sl_tr (s_in s).
+Proof.
+  intros rstat full t tr u v s HI Hv Hfrom new.
+  unfold apply_event. cbn [keypair rbind fst snd]. rewrite Hfrom. cbn [snd_status].
+  destruct (update_all_ok s v new HI Hv) as [sp' [in' [Esp [Ein [Hsp [Hin [Fsp Fin]]]]]]].
+  fold new. rewrite Esp, rbind_ok, Ein, rbind_ok.
+  eexists. split; [reflexivity|]. split; [constructor; cbn [s_stat s_sp s_in]; assumption|].
+  cbn [s_stat s_rows s_elog s_tlog s_sp s_in]. repeat split; assumption.
+Qed.
+
+(* ------------------------------------------------------------------ *)
+(* which events can fire, and what they do                             *)
+
+(* the event the specification allows: a node of status A turns B (tr = A -> B), or the
+   second node of an ordered neighbour pair (u, v), v a successor of u, with statuses
+   (A, B) turns C (tr = (A,B) -> (A,C)); nothing else changes *)
+Definition is_spec_event (s : sst) (spont : bool) (tr : trans) (a : key) (s' : sst) : Prop :=
+  if spont then
+    exists u, a = [u] /\ In u (gnodes g) /\ tr_from tr = [s_stat s u] /\
+              s_stat s' = fupdN (s_stat s) u (hd_status (tr_to tr))
+  else
+    exists u v, a = [u; v] /\ In u (gnodes g) /\ In v (gadj g u) /\
+                tr_from tr = [s_stat s u; s_stat s v] /\
+                s_stat s' = fupdN (s_stat s) v (snd_status (tr_to tr)).
+
+Lemma sp_spec_some : forall st sl k, sp_spec st sl k <> None ->
+  exists u, k = [u] /\ In u (gnodes g) /\ tr_from (sl_tr sl) = [st u].
+Proof.
+  intros st sl [|u [|v r]] H; cbn [sp_spec] in H; try (exfalso; apply H; reflexivity).
+  destruct (mem u (gnodes g)) eqn:Em; [|exfalso; apply H; reflexivity].
+  destruct (from_is sl [st u]) eqn:Ef; [|exfalso; apply H; reflexivity].
+  exists u. split; [reflexivity|]. split; [apply mem_In; exact Em|].
+  unfold from_is in Ef. destruct (keqb_spec (tr_from (sl_tr sl)) [st u]); [assumption|discriminate].
+Qed.
+
+Lemma in_spec_some : forall st sl k, in_spec st sl k <> None ->
+  exists u v, k = [u; v] /\ In u (gnodes g) /\ In v (gadj g u) /\ tr_from (sl_tr sl) = [st u; st v].
+Proof.
+  intros st sl [|u [|v [|w r]]] H; cbn [in_spec] in H; try (exfalso; apply H; reflexivity).
+  destruct (mem u (gnodes g)) eqn:Em; [|exfalso; apply H; reflexivity].
+  destruct (mem v (gadj g u)) eqn:Ev; [|exfalso; apply H; reflexivity].
+  destruct (from_is sl [st u; st v]) eqn:Ef; [|exfalso; apply H; reflexivity].
+  exists u, v. split; [reflexivity|]. split; [apply mem_In; exact Em|]. split; [apply mem_In; exact Ev|].
+  unfold from_is in Ef. destruct (keqb_spec (tr_from (sl_tr sl)) [st u; st v]); [assumption|discriminate].
+Qed.
+
+Lemma oQeq_not_none : forall a b, oQeq a b -> a <> None -> b <> None.
+Proof.
+  intros [x|] [y|] H Ha; cbn [oQeq] in H; try discriminate; try contradiction.
+Qed.
+
+Lemma nth_error_app_l : forall (l1 l2 : list slot) i x, (i < length l1)%nat ->
+  nth_error (l1 ++ l2) i = Some x -> In x l1.
+Proof.
+  intros l1 l2 i x Hi H. rewrite nth_error_app1 in H by exact Hi. eapply nth_error_In. exact H.
+Qed.
+Lemma nth_error_app_r : forall (l1 l2 : list slot) i x, (length l1 <= i)%nat ->
+  nth_error (l1 ++ l2) i = Some x -> In x l2.
+Proof.
+  intros l1 l2 i x Hi H. rewrite nth_error_app2 in H by exact Hi. eapply nth_error_In. exact H.
+Qed.
+
+(* every (transition, actor) pair the selection can produce fires without error, the
+   result is the specification's successor state, and the invariant is preserved *)
+Lemma fire_ok : forall rstat full t s i a sl,
+  SInv s -> nth_error (s_sp s ++ s_in s) i = Some sl -> sabs sl a <> None ->
+  exists s', fire g rstat full t s (i, a) = Ok s' /\ SInv s' /\
+             is_spec_event s (Nat.ltb i (length (s_sp s))) (sl_tr sl) a s' /\
+             map sl_tr (s_sp s') = map sl_tr (s_sp s) /\ map sl_tr (s_in s') = map sl_tr (s_in s).
+Proof.
+  intros rstat full t s i a sl HI Hnth Ha. unfold fire. cbn [fst snd]. rewrite Hnth.
+  destruct (Nat.ltb_spec i (length (s_sp s))) as [Hi|Hi]; unfold is_spec_event.
+  - pose proof (nth_error_app_l _ _ _ _ Hi Hnth) as Hin.
+    pose proof (si_sp s HI) as HF. rewrite Forall_forall in HF. destruct (HF sl Hin) as [_ [_ Hag]].
+    destruct (sp_spec_some (s_stat s) sl a (oQeq_not_none _ _ (Hag a) Ha)) as [u [Ea [Hu Hfrom]]].
+    subst a.
+    destruct (apply_spont_ok rstat full t (sl_tr sl) u s HI Hu Hfrom) as [s' [E [HI' [Hst [_ [_ [_ [F1 F2]]]]]]]].
+    exists s'. split; [exact E|]. split; [exact HI'|]. split; [|split; assumption].
+    exists u. repeat split; assumption.
+  - pose proof (nth_error_app_r _ _ _ _ Hi Hnth) as Hin.
+    pose proof (si_in s HI) as HF. rewrite Forall_forall in HF. destruct (HF sl Hin) as [_ [_ Hag]].
+    destruct (in_spec_some (s_stat s) sl a (oQeq_not_none _ _ (Hag a) Ha)) as [u [v [Ea [Hu [Hv Hfrom]]]]].
+    subst a.
+    assert (Hvn : In v (gnodes g)) by (apply (g_adj_in Hg u v Hu Hv)).
+    destruct (apply_induced_ok rstat full t (sl_tr sl) u v s HI Hvn Hfrom) as [s' [E [HI' [Hst [_ [_ [_ [F1 F2]]]]]]]].
+    exists s'. split; [exact E|]. split; [exact HI'|]. split; [|split; assumption].
+    exists u, v. repeat split; assumption.
+Qed.
+
 End Ev.
+
+(* ------------------------------------------------------------------ *)
+(* the law of one selection                                            *)
+
+Lemma in_scale : forall A (x : A) q p (d : dist A),
+  In (x, q) (scale p d) <-> exists q', In (x, q') d /\ q = p * q'.
+Proof.
+  intros A x q p d. unfold scale. rewrite in_map_iff. split.
+  - intros [[y w] [E Hin]]. cbn [fst snd] in E. injection E as E1 E2. subst y q.
+    exists w. split; [exact Hin|reflexivity].
+  - intros [q' [Hin E]]. exists (x, q'). split; [cbn [fst snd]; rewrite E; reflexivity|exact Hin].
+Qed.
+
+Lemma in_combine_seq : forall (ps : list Q) start i p,
+  In (i, p) (combine (seq start (length ps)) ps) <->
+  (start <= i)%nat /\ nth_error ps (i - start) = Some p.
+Proof.
+  induction ps as [|p0 ps IH]; intros start i p; cbn [length seq combine].
+  - split; [intros []|]. intros [_ H]. destruct (i - start)%nat; discriminate.
+  - cbn [In]. rewrite IH. split.
+    + intros [E|[Hle Hn]].
+      * injection E as E1 E2. subst i p. split; [lia|]. rewrite Nat.sub_diag. reflexivity.
+      * split; [lia|]. replace (i - start)%nat with (S (i - S start)) by lia. exact Hn.
+    + intros [Hle Hn]. destruct (i - start)%nat as [|j] eqn:Ej.
+      * left. cbn [nth_error] in Hn. injection Hn as Hn. subst p. f_equal. lia.
+      * right. split; [lia|]. replace (i - S start)%nat with j by lia. exact Hn.
+Qed.
+
+Lemma law_casc_in : forall A (ps : list Q) (k : nat -> samp A) x q,
+  In (x, q) (law (Casc ps k)) <->
+  exists i p q', nth_error ps i = Some p /\ In (x, q') (law (k i)) /\ q = p * q'.
+Proof.
+  intros A ps k x q. cbn [law]. rewrite in_concat. split.
+  - intros [l [Hl Hx]]. apply in_map_iff in Hl. destruct Hl as [[i p] [El Hip]]. subst l.
+    cbn [fst snd] in Hx. apply in_scale in Hx. destruct Hx as [q' [Hq E]].
+    apply in_combine_seq in Hip. destruct Hip as [_ Hn]. rewrite Nat.sub_0_r in Hn.
+    exists i, p, q'. repeat split; assumption.
+  - intros [i [p [q' [Hn [Hq E]]]]].
+    exists (scale p (law (k i))). split.
+    + apply in_map_iff. exists (i, p). split; [reflexivity|].
+      apply in_combine_seq. split; [lia|]. rewrite Nat.sub_0_r. exact Hn.
+    + apply in_scale. exists q'. split; assumption.
+Qed.
+
+Lemma law_choose_in : forall A (w : bool) (c : list (key * Q)) (k : key -> samp A) x q,
+  In (x, q) (law (Choose w c k)) <->
+  exists a wa q', In (a, wa) c /\ In (x, q') (law (k a)) /\
+                  q = (if w then wa / wsum c else 1 / Qnat (length c)) * q'.
+Proof.
+  intros A w c k x q. cbn [law]. rewrite in_concat. split.
+  - intros [l [Hl Hx]]. apply in_map_iff in Hl. destruct Hl as [[a wa] [El Hin]]. subst l.
+    cbn [fst snd] in Hx. apply in_scale in Hx. destruct Hx as [q' [Hq E]].
+    exists a, wa, q'. repeat split; assumption.
+  - intros [a [wa [q' [Hin [Hq E]]]]].
+    exists (scale (if w then wa / wsum c else 1 / Qnat (length c)) (law (k a))). split.
+    + apply in_map_iff. exists (a, wa). split; [reflexivity|exact Hin].
+    + apply in_scale. exists q'. split; assumption.
+Qed.
+
+(* the candidates handed to choose_random: the items, each with its weight *)
+Lemma kinsert_perm : forall V (kv : key * V) l, Permutation (kinsert kv l) (kv :: l).
+Proof.
+  intros V kv l. induction l as [|h t IH]; cbn [kinsert]; [apply Permutation_refl|].
+  destruct (kltb (fst kv) (fst h)); [apply Permutation_refl|].
+  eapply Permutation_trans; [apply perm_skip; exact IH|apply perm_swap].
+Qed.
+Lemma ksort_perm : forall V (l : list (key * V)), Permutation (ksort l) l.
+Proof.
+  intros V l. induction l as [|h t IH]; [apply Permutation_refl|].
+  unfold ksort in *. cbn [fold_right].
+  eapply Permutation_trans; [apply kinsert_perm|]. apply perm_skip. exact IH.
+Qed.
+
+Definition aw (L : kld) (k : key) : Q := if weighted L then wread key L k else 1.
+
+Lemma kl_cands_in : forall (L : kld) a wa,
+  In (a, wa) (kl_cands L) <-> In a (items L) /\ wa = aw L a.
+Proof.
+  intros L a wa. unfold kl_cands. split.
+  - intro H. apply (Permutation_in _ (ksort_perm _ _)) in H. apply in_map_iff in H.
+    destruct H as [k [E Hk]]. injection E as E1 E2. subst k wa. split; [exact Hk|reflexivity].
+  - intros [Hin E]. apply (Permutation_in _ (Permutation_sym (ksort_perm _ _))).
+    apply in_map_iff. exists a. split; [subst wa; reflexivity|exact Hin].
+Qed.
+
+Lemma kl_cands_wsum : forall L : kld, wsum (kl_cands L) == sumQ (map (aw L) (items L)).
+Proof.
+  intro L. unfold wsum, kl_cands.
+  rewrite (sumQ_perm _ _ (Permutation_map snd (ksort_perm _ _))).
+  rewrite map_map. cbn [snd]. reflexivity.
+Qed.
+
+Lemma kl_cands_length : forall L : kld, length (kl_cands L) = length (items L).
+Proof.
+  intro L. unfold kl_cands. rewrite (Permutation_length (ksort_perm _ _)). apply map_length.
+Qed.
+
+Lemma aw_abs : forall (L : kld) a, kinv L -> In a (items L) -> kabs L a = Some (aw L a).
+Proof.
+  intros L a Hinv Hin. rewrite (abs_unfold key).
+  apply (pos_in key _ _ (inv_pos key L Hinv)) in Hin.
+  destruct (pos L a); [reflexivity|contradiction Hin; reflexivity].
+Qed.
+
+Lemma total_weight_aw : forall L : kld, kinv L ->
+  ld_total_weight key L == sumQ (map (aw L) (items L)).
+Proof.
+  intros L Hinv. rewrite (kl_total L Hinv). apply sumQ_map_ext_in. intros x Hx.
+  unfold absw. rewrite (aw_abs L x Hinv Hx). reflexivity.
+Qed.
+
+Lemma aw_nonneg : forall (L : kld) a, kinv L -> 0 <= aw L a.
+Proof.
+  intros L a Hinv. unfold aw. destruct (weighted L) eqn:Ew; [|lra].
+  apply (wread_nonneg key L a Hinv Ew).
+Qed.
+
+Lemma elem_le_sum : forall (f : key -> Q) l a, (forall x, 0 <= f x) -> In a l -> f a <= sumQ (map f l).
+Proof.
+  intros f l a Hf. induction l as [|h t IH]; [intros []|]. intros [E|Hin]; cbn [map]; rewrite sumQ_cons.
+  - subst h. assert (H : 0 <= sumQ (map f t)).
+    { apply sumQ_nonneg. intros x Hx. apply in_map_iff in Hx. destruct Hx as [y [E _]]. subst x. apply Hf. }
+    lra.
+  - pose proof (IH Hin). pose proof (Hf h). lra.
+Qed.
+
+Section Law.
+Variable g : graph.
+Hypothesis Hg : wfg2 g.
+
+Lemma slot_inv_of : forall s sl, SInv g s -> In sl (s_sp s ++ s_in s) -> slok sl.
+Proof.
+  intros s sl HI Hin. apply in_app_or in Hin. destruct Hin as [H|H].
+  - pose proof (si_sp g s HI) as HF. rewrite Forall_forall in HF. apply (HF sl H).
+  - pose proof (si_in g s HI) as HF. rewrite Forall_forall in HF. apply (HF sl H).
+Qed.
+
+(* the weight the bookkeeping holds for an enabled actor is the specification's *)
+Lemma aw_is_wgt : forall s sl a, SInv g s -> In sl (s_sp s ++ s_in s) -> In a (items (sl_pot sl)) ->
+  aw (sl_pot sl) a == wgt sl a.
+Proof.
+  intros s sl a HI Hin Ha.
+  pose proof (slot_inv_of s sl HI Hin) as Hok.
+  pose proof (aw_abs (sl_pot sl) a (so_inv sl Hok) Ha) as Habs.
+  apply in_app_or in Hin. destruct Hin as [H|H].
+  - pose proof (si_sp g s HI) as HF. rewrite Forall_forall in HF. destruct (HF sl H) as [_ [_ Hag]].
+    specialize (Hag a). unfold sabs in Hag. rewrite Habs in Hag.
+    destruct a as [|u [|v r]]; cbn [sp_spec] in Hag; try contradiction.
+    destruct (mem u (gnodes g) && from_is sl [s_stat s u]); [exact Hag|contradiction].
+  - pose proof (si_in g s HI) as HF. rewrite Forall_forall in HF. destruct (HF sl H) as [_ [_ Hag]].
+    specialize (Hag a). unfold sabs in Hag. rewrite Habs in Hag.
+    destruct a as [|u [|v [|w r]]]; cbn [in_spec] in Hag; try contradiction.
+    destruct (mem u (gnodes g) && mem v (gadj g u) && from_is sl [s_stat s u; s_stat s v]);
+      [exact Hag|contradiction].
+Qed.
+
+(* simple_step_law, soundness: every outcome of the selection with its mass *)
+Lemma select_law_sound : forall s i a q,
+  SInv g s -> 0 < total_rate s -> In ((i, a), q) (law (select s)) ->
+  exists sl, nth_error (s_sp s ++ s_in s) i = Some sl /\ sabs sl a <> None /\
+             q == tr_rate (sl_tr sl) * wgt sl a / total_rate s.
+Proof.
+  intros s i a q HI Htot Hin. unfold select in Hin.
+  apply law_casc_in in Hin. destruct Hin as [j [p [q' [Hp [Hq E]]]]].
+  rewrite nth_error_map in Hp.
+  destruct (nth_error (s_sp s ++ s_in s) j) as [sl|] eqn:Enth; [|discriminate].
+  cbn [option_map] in Hp. injection Hp as Hp.
+  apply law_choose_in in Hq. destruct Hq as [b [wb [q'' [Hc [Hr E2]]]]].
+  cbn [law In] in Hr. destruct Hr as [Hr|Hr]; [|contradiction]. injection Hr as E3 E4 E5. subst j b q''.
+  apply kl_cands_in in Hc. destruct Hc as [Hitems Ewb].
+  pose proof (nth_error_In _ _ Enth) as Hsl.
+  pose proof (slot_inv_of s sl HI Hsl) as Hok.
+  pose proof (so_inv sl Hok) as Hinv.
+  exists sl. split; [exact Enth|]. split.
+  - unfold sabs. rewrite (aw_abs _ _ Hinv Hitems). discriminate.
+  - rewrite <- (aw_is_wgt s sl a HI Hsl Hitems). subst q q' p wb. unfold slot_rate.
+    pose proof (total_weight_aw _ Hinv) as Htw.
+    pose proof (aw_nonneg (sl_pot sl) a Hinv) as Hnn.
+    pose proof (elem_le_sum (aw (sl_pot sl)) _ a (fun x => aw_nonneg _ x Hinv) Hitems) as Hle.
+    destruct (weighted (sl_pot sl)) eqn:Ew.
+    + rewrite kl_cands_wsum, <- Htw.
+      destruct (Qeq_dec (ld_total_weight key (sl_pot sl)) 0) as [Ez|Ez].
+      * assert (Ha0 : aw (sl_pot sl) a == 0) by (rewrite <- Htw, Ez in Hle; lra).
+        rewrite Ez, Ha0. unfold Qdiv. ring.
+      * field. split; [lra|exact Ez].
+    + rewrite kl_cands_length.
+      assert (Hlen : 0 < Qnat (length (items (sl_pot sl)))).
+      { apply Qnat_pos. destruct (items (sl_pot sl)); [contradiction|cbn [length]; lia]. }
+      unfold ld_total_weight, aw. rewrite Ew. field. split; lra.
+Qed.
+
+(* completeness: every enabled (transition, actor) pair is an outcome *)
+Lemma select_law_complete : forall s i a sl,
+  SInv g s -> nth_error (s_sp s ++ s_in s) i = Some sl -> sabs sl a <> None ->
+  exists q, In ((i, a), q) (law (select s)).
+Proof.
+  intros s i a sl HI Hnth Ha.
+  pose proof (slot_inv_of s sl HI (nth_error_In _ _ Hnth)) as Hok.
+  assert (Hitems : In a (items (sl_pot sl))) by (apply (kl_items_abs _ _ (so_inv sl Hok)); exact Ha).
+  eexists. unfold select. apply law_casc_in.
+  exists i, (slot_rate sl / total_rate s). eexists. split; [|split; [|reflexivity]].
+  - rewrite nth_error_map, Hnth. reflexivity.
+  - rewrite Hnth. apply law_choose_in. exists a, (aw (sl_pot sl) a). eexists.
+    split; [apply kl_cands_in; split; [exact Hitems|reflexivity]|].
+    split; [cbn [law In]; left; reflexivity|reflexivity].
+Qed.
+
+(* the holding rate: total_rate is the sum, over the transitions, of rate x (sum of the
+   weights of the enabled actors) *)
+Lemma total_rate_spec : forall s, SInv g s ->
+  total_rate s ==
+  sumQ (map (fun sl => tr_rate (sl_tr sl) * sumQ (map (wgt sl) (items (sl_pot sl)))) (s_sp s ++ s_in s)).
+Proof.
+  intros s HI. unfold total_rate. apply sumQ_map_ext_in. intros sl Hsl. unfold slot_rate.
+  pose proof (slot_inv_of s sl HI Hsl) as Hok.
+  rewrite (total_weight_aw _ (so_inv sl Hok)).
+  assert (E : sumQ (map (aw (sl_pot sl)) (items (sl_pot sl))) == sumQ (map (wgt sl) (items (sl_pot sl)))).
+  { apply sumQ_map_ext_in. intros a Ha. apply (aw_is_wgt s sl a HI Hsl Ha). }
+  rewrite E. reflexivity.
+Qed.
+
+(* the items of a slot are exactly the enabled actors *)
+Lemma items_enabled_sp : forall s sl a, SInv g s -> In sl (s_sp s) ->
+  (In a (items (sl_pot sl)) <-> sp_spec g (s_stat s) sl a <> None).
+Proof.
+  intros s sl a HI Hsl. pose proof (si_sp g s HI) as HF. rewrite Forall_forall in HF.
+  destruct (HF sl Hsl) as [Hok [_ Hag]]. rewrite (kl_items_abs _ _ (so_inv sl Hok)).
+  specialize (Hag a). unfold sabs in Hag. split; intro H.
+  - eapply oQeq_not_none; eassumption.
+  - eapply oQeq_not_none; [apply oQeq_sym; exact Hag|exact H].
+Qed.
+Lemma items_enabled_in : forall s sl a, SInv g s -> In sl (s_in s) ->
+  (In a (items (sl_pot sl)) <-> in_spec g (s_stat s) sl a <> None).
+Proof.
+  intros s sl a HI Hsl. pose proof (si_in g s HI) as HF. rewrite Forall_forall in HF.
+  destruct (HF sl Hsl) as [Hok [_ Hag]]. rewrite (kl_items_abs _ _ (so_inv sl Hok)).
+  specialize (Hag a). unfold sabs in Hag. split; intro H.
+  - eapply oQeq_not_none; eassumption.
+  - eapply oQeq_not_none; [apply oQeq_sym; exact Hag|exact H].
+Qed.
+
+End Law.
+
+(* ------------------------------------------------------------------ *)
+(* the loop: waiting-time rate and stop rule                           *)
+Lemma loop_stops_at_zero : forall g ic rstat tmin tmax full fuel t s,
+  ~ 0 < total_rate s ->
+  loop g ic rstat tmin tmax full fuel t s = lifts (finish g ic rstat tmin full s).
+Proof.
+  intros g ic rstat tmin tmax full fuel t s H. destruct fuel; cbn [loop];
+    (destruct (Qltb 0 (total_rate s)) eqn:E; [apply Qltb_true in E; contradiction|reflexivity]).
+Qed.
+
+Lemma loop_step : forall g ic rstat tmin tmax full fuel t s,
+  0 < total_rate s ->
+  loop g ic rstat tmin tmax full (S fuel) t s =
+  Expo (total_rate s) (fun d =>
+    if xlt (t + d) tmax
+    then bind (jump g rstat full (t + d) s) (fun s' => loop g ic rstat tmin tmax full fuel (t + d) s')
+    else lifts (finish g ic rstat tmin full s)).
+Proof.
+  intros g ic rstat tmin tmax full fuel t s H. cbn [loop].
+  apply Qltb_true in H. rewrite H. reflexivity.
+Qed.
+
+Lemma xlt_spec : forall a b, xlt a b = true <-> match b with None => True | Some m => a < m end.
+Proof.
+  intros a [m|]; cbn [xlt]; [|split; auto].
+  destruct (Qlt_le_dec a m); split; intro H; try reflexivity; try assumption; try discriminate. lra.
+Qed.
